@@ -213,6 +213,7 @@ class Raises(object):
                     out.append((text, p))
         out += self._universal_loop_facts(f, g, node)
         out += self._helper_post_facts(f, g, node)
+        out += self._none_result_facts(f, g, node, out)
         # dominating stores of a constant:  X.attr = None  =>  (X.attr is None) holds until X.attr is stored again
         for n in g.nodes:
             if n.kind == "stmt" and isinstance(n.ast, ast.Assign) and len(n.ast.targets) == 1 and n.id != node.id \
@@ -257,6 +258,65 @@ class Raises(object):
             common = facts if common is None else (common & facts)
         out = sorted(x for x in (common or set()) if not x[0].startswith("ALIAS "))
         cache[h.qualname] = out
+        return out
+
+    def _none_result_facts(self, f, g, node, facts):
+        """`x = self._helper(a)` ... `x is None` known: when the helper hands back None at one place only (its other results cannot be None)
+        the conditions of that place hold, in the caller's terms.  (`children = self._child_list_for(obj); if children is None: raise` refuses
+        exactly the objects that are neither a Section nor a Property.)"""
+        from .dataflow import reaching_defs, def_value
+        from .astutil import atoms_of as _atoms_of
+        out = []
+        for text, pol in list(facts):
+            m = re.match(r"^(\w+) is None$", text)
+            if not m or pol is not True:
+                continue
+            name = m.group(1)
+            defs = list(reaching_defs(g, node, name))
+            if len(defs) != 1 or defs[0].kind == "entry":
+                continue
+            call = def_value(defs[0], name)
+            if not isinstance(call, ast.Call):
+                continue
+            fn = call.func
+            hname = fn.attr if isinstance(fn, ast.Attribute) else fn.id if isinstance(fn, ast.Name) else ""
+            if not hname.startswith("_") or hname.startswith("__"):
+                continue
+            tgts = [t for t in self.s.targets(call, f) if isinstance(t, FuncInfo)]
+            if len(tgts) != 1 or tgts[0].is_generator:
+                continue
+            h = tgts[0]
+            hg = self.s.cfg(h)
+            rets = [n for n in hg.nodes if n.kind == "return"]
+            nones = [n for n in rets if n.ast.value is None or (isinstance(n.ast.value, ast.Constant) and n.ast.value.value is None)]
+            others = [n for n in rets if n not in nones]
+            falls = [p for k0, p in hg.exit.pred if k0 not in ("return", "exc") and p.kind not in ("return", "raise")]
+            if len(nones) != 1 or falls:
+                continue
+            env = self.k.envs.get(h.qualname, {})
+            sure = True
+            for n in others:
+                ks = self.k.ek(n.ast.value, h, env)
+                if not ks or "None" in ks or "?" in ks:
+                    sure = False
+            if not sure:
+                continue
+            args = self.s.arg_exprs(call, h, f)
+            allp = h.params + h.kwonly
+            mapping = {}
+            for i, pn in enumerate(allp):
+                if i in args:
+                    mapping[pn] = norm(args[i])
+            for test, tp, br in hg.dominating_conditions(nones[0]):
+                if tp not in ("true", "false"):
+                    continue
+                for t2, p2 in _atoms_of(test, tp == "true", norm):
+                    names = names_in_text(t2)
+                    if any(x not in mapping and x in (h.params + h.kwonly) for x in names):
+                        continue
+                    if any(x in self.s.local_names(h) and x not in mapping for x in names):
+                        continue
+                    out.append((substitute(t2, mapping), p2))
         return out
 
     def _helper_post_facts(self, f, g, node):
@@ -966,6 +1026,10 @@ class Raises(object):
                     names.append(y.id)
         for name in names:
             defs = [d for d in reaching_defs(g, node, name)]
+            if len(defs) == 1 and defs[0].kind == "stmt" and isinstance(defs[0].ast, ast.Assign) and isinstance(defs[0].ast.value, ast.Call):
+                alts = self._helper_location_alternatives(f, defs[0].ast.value, name, _is_location, _atoms_of)
+                if alts:
+                    return alts
             if len(defs) < 2 or any(d.kind != "stmt" or not isinstance(d.ast, ast.Assign) for d in defs):
                 continue
             vals = []
@@ -990,6 +1054,45 @@ class Raises(object):
                 out.append(({name: norm(v)}, conds))
             return out
         return [({}, [])]
+
+    def _helper_location_alternatives(self, f, call, name, _is_location, _atoms_of):
+        """`x = self._pick(obj)` where the private helper returns one of several locations of its own object (or None): the bindings of x, each
+        with the conditions under which the helper returns it, in the caller's terms"""
+        fn = call.func
+        hname = fn.attr if isinstance(fn, ast.Attribute) else fn.id if isinstance(fn, ast.Name) else ""
+        if not hname.startswith("_") or hname.startswith("__"):
+            return None
+        tgts = [t for t in self.s.targets(call, f) if isinstance(t, FuncInfo)]
+        if len(tgts) != 1 or tgts[0].is_generator:
+            return None
+        h = tgts[0]
+        hg = self.s.cfg(h)
+        args = self.s.arg_exprs(call, h, f)
+        mapping = {}
+        for i, pn in enumerate(h.params + h.kwonly):
+            if i in args:
+                mapping[pn] = norm(args[i])
+        out = []
+        for n in hg.nodes:
+            if n.kind != "return":
+                continue
+            v = n.ast.value
+            if v is None or (isinstance(v, ast.Constant) and v.value is None):
+                continue          # the caller tests `x is None` before it uses x as a receiver
+            if not _is_location(v):
+                return None
+            names_v = names_in_text(norm(v))
+            if any(x in self.s.local_names(h) and x not in mapping for x in names_v):
+                return None
+            conds = []
+            for test, pol, br in hg.dominating_conditions(n):
+                if pol in ("true", "false"):
+                    for t2, p2 in _atoms_of(test, pol == "true", norm):
+                        if any(x in self.s.local_names(h) and x not in mapping for x in names_in_text(t2)):
+                            continue
+                        conds.append((substitute(t2, mapping), p2))
+            out.append(({name: substitute(norm(v), mapping)}, conds))
+        return out if len(out) >= 1 else None
 
     def _handler_classes_of(self, f, node):
         """exception classes of the except clause the node belongs to (for bare raise)."""
